@@ -46,9 +46,9 @@ def generate(spec, build_dir):
                 dst = os.path.join(odir, (pkg + "/" + fn).replace("/", "__"))
                 open(dst, "w").write(src)
                 replace[os.path.join(pdir, fn)] = dst
-        replace[os.path.join(REPO, "zz_verif/vsync/vsync.go")] = os.path.join(ROOT, "vsync/vsync.go")
-        replace[os.path.join(REPO, "zz_verif/vatomic/vatomic.go")] = os.path.join(ROOT, "vsync/vatomic.go")
-        replace[os.path.join(REPO, "zz_verif/sched/sched.go")] = os.path.join(ROOT, "vsync/sched.go")
+        replace[os.path.join(REPO, "zz_verif/vsync/vsync.go")] = os.path.join(ROOT, "_shim/vsync.go")
+        replace[os.path.join(REPO, "zz_verif/vatomic/vatomic.go")] = os.path.join(ROOT, "_shim/vatomic.go")
+        replace[os.path.join(REPO, "zz_verif/sched/sched.go")] = os.path.join(ROOT, "_shim/sched.go")
     path = os.path.join(odir, "overlay.json")
     json.dump({"Replace": replace}, open(path, "w"), indent=1)
     return path
